@@ -1,18 +1,131 @@
 (* C19 — `tt convert` equals the library pipeline, honours options, is deterministic.
 
-   M = Model/Cli.v `plan : argv x --config x --config_file -> OError exn | OHelp | OPlan reader+cfg lang [filter+cfg] writer+cfg`
-   (transcription of tt.py, config.py, every */config.py decoder, lcd.py's decoders, the filter registry),
-   S = Spec/CliSpec.v (property text + README: type_ok, effective, documented, spec_known_filter).
-   What is proved here, for ALL command lines and ALL JSON values, is the plan-level half of the property:
-   type inference, configuration precedence, filter order, document_lang, no output action on any error, and the
-   per-key acceptance table.  Byte equality of the written file with the library pipeline run on this plan, and
-   determinism / history independence of the real process, are established by differential execution in
-   harness/c19.py (M is pure, so they hold of M by construction and are not theorems). *)
-From Coq Require Import String.
-From TT Require Import Base.Prelude Base.CliTypes Gen.CliUnicode Model.Cli Spec.CliSpec Model.CliCases Gen.CliTables
-  Proofs.C19.Tables Proofs.C19.Plan Proofs.C19.Types Proofs.C19.Accept.
+   M = Model/Cli.v: a transcription of tt.py (main, convert, get_file_type, read_config_from_json), config.py, every
+   */config.py decoder, lcd.py's decoders, the filter registry and argparse as far as `tt` declares it, over an abstract
+   JSON value type:
+     parse_main  : raw tokens -> usage error | help | options + --config text + --config_file path
+     convert / plan / plan_tokens : -> OError exn | OHelp | OPlan reader+cfg lang [filter+cfg] writer+cfg level progress
+     run_convert / run_tokens     : the same with the readers, filters and writers put back as ARBITRARY functions that
+                                    may raise, logging every effect visible outside (progress, level, read, set_lang,
+                                    filter, write, output file).
+   S = Spec/CliSpec.v (property text + README): type_ok, documented / meaning per key, the command-line grammar
+   tokens_of, spec_options, spec_plan, lib_pipeline, plan_events.
 
-(* ---- type inference: --itype/--otype if given, else the extension, case-insensitively, else an error *)
+   Proved here, for ALL token lists of the grammar, ALL JSON values, ALL readers / filters / writers:
+     - the command line denotes the options README says, the plan is the one README prescribes, the run is the library
+       pipeline on that plan and writes its bytes to the -o path (C19_plan_is_pipeline and its three parts);
+     - no output file is opened on any run that does not end well, for any token list at all (C19_no_output_on_error);
+     - each of the 19 documented keys accepts exactly the documented values and decodes them to their documented
+       meaning — unconditionally for ten keys, outside the narrowed triggers of the two remaining findings for nine;
+     - the plan depends on nothing but the documented keys of the consulted sections: not on key order, not on other
+       sections, not on undocumented keys (README is silent about those: they are ignored).
+   Byte equality of the real process with the real library calls, and independence from the hash seed / earlier
+   conversions, are differential (harness/c19.py): M is a function, so inside M they hold by construction. *)
+From Coq Require Import String Permutation.
+From TT Require Import Base.Prelude Base.CliTypes Gen.CliUnicode Model.Cli Spec.CliSpec Model.CliCases Gen.CliTables Gen.CliShape
+  Proofs.C19.Tables Proofs.C19.Plan Proofs.C19.Types Proofs.C19.Accept Proofs.C19.AcceptFont Proofs.C19.AcceptColor
+  Proofs.C19.AcceptAll Proofs.C19.Args Proofs.C19.Pipeline Proofs.C19.SpecPlan Proofs.C19.Order Proofs.C19.Main.
+
+(* ================================================================== the whole property, as one statement.
+   For every token list `convert <options>` of the command-line grammar (options in any order, `flag value` or
+   `flag=value`, repeated at will) with -i and -o given, every way the --config text parses and the --config_file reads,
+   every reader / filter / writer behaviour: if the configuration sources are readable and every value of a consulted
+   section is inside README's table and outside the recorded triggers, then
+     - README prescribes a plan p  =>  M's plan is p; the run ends as the library pipeline does on p — the selected
+       reader on the -i path, document_lang set once between reading and filtering, the named filters in command-line
+       order, the selected writer — with its bytes written to the -o path; and when it ends well its effects are
+       exactly plan_events p, in that order;
+     - README prescribes none (an undocumented value, a section that is not an object, an unresolvable or unwritable
+       type)  =>  the run ends in an error. *)
+Theorem C19_plan_is_pipeline :
+  forall (doc bytes : Type) (read_doc : reader -> text -> res doc) (set_lang : text -> doc -> doc)
+         (run_filter : filter_app -> doc -> res doc) (write_doc : writer -> doc -> res bytes)
+         (json_of : text -> option json) (files : text -> file_src) items toks o c cf,
+    tokens_of items toks -> spec_options items = Some (o, c, cf) ->
+    let i := inline_of json_of c in let f := file_of files cf in
+    sources_ok i f = true -> clean o (effective i f) = true ->
+    match spec_plan o (effective i f) with
+    | Some p => plan_tokens json_of files (T "convert" :: toks) = OPlan p /\
+                snd (run_tokens doc bytes read_doc set_lang run_filter write_doc json_of files (T "convert" :: toks)) =
+                  match lib_pipeline doc bytes read_doc set_lang run_filter write_doc p (o_input o) with
+                  | Ok b => FDone (o_output o) b | Raise e => FError e end /\
+                (forall b, lib_pipeline doc bytes read_doc set_lang run_filter write_doc p (o_input o) = Ok b ->
+                           fst (run_tokens doc bytes read_doc set_lang run_filter write_doc json_of files (T "convert" :: toks)) =
+                           plan_events p (o_input o) (o_output o))
+    | None => (exists e, plan_tokens json_of files (T "convert" :: toks) = OError e) /\
+              (exists e, snd (run_tokens doc bytes read_doc set_lang run_filter write_doc json_of files (T "convert" :: toks)) = FError e)
+    end.
+Proof. exact plan_is_pipeline. Qed.
+
+(* ---- its three parts, each without the hypotheses it does not need *)
+(* (a) argparse on the grammar: the options README reads off the command line, for every token list of the grammar *)
+Theorem C19_args_grammar : forall items toks,
+  tokens_of items toks ->
+  parse_convert toks = match spec_options items with Some (o, c, cf) => CConvert o c cf | None => CUsage end.
+Proof. exact parse_convert_grammar. Qed.
+Theorem C19_grammar_recognised : forall items toks, tokens_of items toks <-> spec_items toks = Some items.
+Proof. exact grammar_iff. Qed.
+(* (b) the plan is the one README prescribes *)
+Theorem C19_plan_is_spec_plan : forall o i f,
+  sources_ok i f = true -> clean o (effective i f) = true ->
+  match spec_plan o (effective i f) with Some p => convert o i f = Ok p | None => exists e, convert o i f = Raise e end.
+Proof. exact plan_is_spec. Qed.
+Theorem C19_unreadable_sources : forall o i f, sources_ok i f = false -> exists e, convert o i f = Raise e.
+Proof. exact bad_sources_fail. Qed.
+(* (c) the run follows the plan — no hypothesis on the configuration at all *)
+Theorem C19_run_is_pipeline :
+  forall (doc bytes : Type) (read_doc : reader -> text -> res doc) (set_lang : text -> doc -> doc)
+         (run_filter : filter_app -> doc -> res doc) (write_doc : writer -> doc -> res bytes) o i f,
+    match convert o i f with
+    | Ok p => snd (run_convert doc bytes read_doc set_lang run_filter write_doc o i f []) =
+                match lib_pipeline doc bytes read_doc set_lang run_filter write_doc p (o_input o) with
+                | Ok b => Ok (o_output o, b) | Raise e => Raise e end /\
+              (forall b, lib_pipeline doc bytes read_doc set_lang run_filter write_doc p (o_input o) = Ok b ->
+                         fst (run_convert doc bytes read_doc set_lang run_filter write_doc o i f []) = plan_events p (o_input o) (o_output o))
+    | Raise _ => exists e, snd (run_convert doc bytes read_doc set_lang run_filter write_doc o i f []) = Raise e
+    end.
+Proof. exact run_is_pipeline. Qed.
+
+(* ================================================================== no output on any error path.
+   For ANY token list (grammatical or not), any environment, any readers / filters / writers: a run that does not end
+   well — usage text, usage error, unreadable or malformed configuration, undocumented value, unsupported type, an
+   exception raised by a reader, a filter or the writer — has not opened the output file; one that ends well has opened
+   exactly the -o path, once, as its last effect, after the library pipeline returned the bytes. *)
+Theorem C19_no_output_on_error :
+  forall (doc bytes : Type) (read_doc : reader -> text -> res doc) (set_lang : text -> doc -> doc)
+         (run_filter : filter_app -> doc -> res doc) (write_doc : writer -> doc -> res bytes)
+         (json_of : text -> option json) (files : text -> file_src) toks,
+    (forall path b, snd (run_tokens doc bytes read_doc set_lang run_filter write_doc json_of files toks) <> FDone path b) ->
+    no_output_event (fst (run_tokens doc bytes read_doc set_lang run_filter write_doc json_of files toks)) = true.
+Proof. exact no_output_on_error. Qed.
+Theorem C19_output_only_when_done :
+  forall (doc bytes : Type) (read_doc : reader -> text -> res doc) (set_lang : text -> doc -> doc)
+         (run_filter : filter_app -> doc -> res doc) (write_doc : writer -> doc -> res bytes)
+         (json_of : text -> option json) (files : text -> file_src) toks path b,
+    snd (run_tokens doc bytes read_doc set_lang run_filter write_doc json_of files toks) = FDone path b ->
+    exists o c cf p, parse_main toks = CConvert o c cf /\ convert o (inline_of json_of c) (file_of files cf) = Ok p /\
+                     path = o_output o /\ lib_pipeline doc bytes read_doc set_lang run_filter write_doc p (o_input o) = Ok b /\
+                     fst (run_tokens doc bytes read_doc set_lang run_filter write_doc json_of files toks) = plan_events p (o_input o) (o_output o).
+Proof. exact output_only_when_done. Qed.
+(* the same at the level of the plan *)
+Theorem C19_errors_no_output : forall a i f e, plan a i f = OError e -> output_action a (plan a i f) = None.
+Proof. exact error_no_output. Qed.
+Theorem C19_help_no_output : forall i f, plan NoSubcommand i f = OHelp /\ output_action NoSubcommand (plan NoSubcommand i f) = None.
+Proof. exact help_no_output. Qed.
+Theorem C19_unknown_subcommand : forall n o i f, n <> T "convert" -> plan (Subcommand n o) i f = OError EExitUsage.
+Proof. exact unknown_subcommand. Qed.
+Theorem C19_unknown_subcommand_tokens : forall sub toks, sub <> T "convert" -> parse_main (sub :: toks) = CUsage.
+Proof. exact parse_main_unknown. Qed.
+Theorem C19_output_only_if_valid : forall a i f path w,
+  output_action a (plan a i f) = Some (path, w) ->
+  exists n o p, a = Subcommand n o /\ n = T "convert" /\ plan a i f = OPlan p /\ path = o_output o /\ w = p_writer p /\
+    get_file_type (o_itype o) (splitext (o_input o)) = Ok (reader_type (p_reader p)) /\
+    get_file_type (o_otype o) (splitext (o_output o)) = Ok (writer_type w) /\ writable (writer_type w) = true /\
+    sources_ok i f = true.
+Proof. exact output_only_if_valid. Qed.
+
+(* ================================================================== type inference: --itype/--otype if given, else the
+   extension, case-insensitively, else an error *)
 Theorem C19_types_iff : forall g p t, get_file_type g (splitext p) = Ok t <-> type_ok g p t = true.
 Proof. exact types_iff. Qed.
 Theorem C19_types_unique : forall g p t t', type_ok g p t = true -> type_ok g p t' = true -> t = t'.
@@ -28,7 +141,7 @@ Theorem C19_unsupported_types : forall o i f,
   exists e, plan (Subcommand (T "convert") o) i f = OError e.
 Proof. exact unsupported_types. Qed.
 
-(* ---- a configuration file takes precedence over an inline configuration *)
+(* ================================================================== a configuration file takes precedence over an inline one *)
 Theorem C19_precedence : forall a j1 j2, plan a (IGiven j1) (FGiven j2) = plan a IAbsent (FGiven j2).
 Proof. exact precedence. Qed.
 Theorem C19_inline_alone : forall a j, plan a (IGiven j) FAbsent = plan a IAbsent (FGiven j).
@@ -38,7 +151,7 @@ Proof. exact inline_alone. Qed.
 Theorem C19_malformed_inline : forall o f, plan (Subcommand (T "convert") o) IMalformed f = OError EJsonDecode.
 Proof. exact malformed_inline. Qed.
 
-(* ---- the named document filters, in command-line order; unknown names are skipped (logged), not errors *)
+(* ================================================================== filters and document language (unconditional forms) *)
 Theorem C19_filters_order : forall n o i f p,
   plan (Subcommand n o) i f = OPlan p ->
   List.map filter_name (p_filters p) = List.filter spec_known_filter (o_filters o).
@@ -46,62 +159,113 @@ Proof. exact filters_order. Qed.
 Theorem C19_filters_configured : forall names data fs,
   apply_filters names data = Ok fs -> fs = List.map (fun _ => FLcd (lcd_of data)) (List.filter known_filter names).
 Proof. exact apply_filters_spec. Qed.
-
-(* ---- document_lang of the configuration in force overrides the document language *)
 Theorem C19_lang_override : forall n o i f p,
   plan (Subcommand n o) i f = OPlan p ->
   p_lang p = match general_of (effective i f) with Some (_, _, JStr s) => Some s | _ => None end.
 Proof. exact lang_override. Qed.
 
-(* ---- an Error plan never names an output action; neither does the usage text; unknown sub-commands are errors;
-        an output action implies convert + resolved types + writable output type + readable configuration *)
-Theorem C19_errors_no_output : forall a i f e, plan a i f = OError e -> output_action a (plan a i f) = None.
-Proof. exact error_no_output. Qed.
-Theorem C19_help_no_output : forall i f, plan NoSubcommand i f = OHelp /\ output_action NoSubcommand (plan NoSubcommand i f) = None.
-Proof. exact help_no_output. Qed.
-Theorem C19_unknown_subcommand : forall n o i f, n <> T "convert" -> plan (Subcommand n o) i f = OError EExitUsage.
-Proof. exact unknown_subcommand. Qed.
-Theorem C19_output_only_if_valid : forall a i f path w,
-  output_action a (plan a i f) = Some (path, w) ->
-  exists n o p, a = Subcommand n o /\ n = T "convert" /\ plan a i f = OPlan p /\ path = o_output o /\ w = p_writer p /\
-    get_file_type (o_itype o) (splitext (o_input o)) = Ok (reader_type (p_reader p)) /\
-    get_file_type (o_otype o) (splitext (o_output o)) = Ok (writer_type w) /\ writable (writer_type w) = true /\
-    sources_ok i f = true.
-Proof. exact output_only_if_valid. Qed.
-
-(* ---- configuration parsing accepts exactly the documented values.
-   Full statement (false of the faithful model, see Findings/C19.v):
-       forall k v, v <> JNull -> (accepts k v = true <-> documented k v = true).
-   Proved: the same, for the 16 keys other than colours and font stacks, on every value outside the executable
-   triggers of the three recorded findings (Spec/CliSpec.v trigger). *)
-Theorem C19_config_accepts_partial : forall k v,
-  table_key k = true -> v <> JNull -> trigger k v = false -> (accepts k v = true <-> documented k v = true).
+(* ================================================================== configuration acceptance.
+   Full statement:  forall k v, in_table k v = true -> (accepts k v = true <-> documented k v = true) /\
+                                (documented k v = true -> decode k v = Ok (meaning k v)).
+   It holds unconditionally for ten keys (the eight `true | false` keys, imsc_writer.time_format, lcd.safe_area), for
+   imsc_writer.fps below CPython's digit limit, and for the remaining keys outside the narrowed triggers of the two
+   findings that are still recorded (Spec/CliSpec.v trigger; refutations in Findings/C19.v). *)
+Theorem C19_config_acceptance_exact : forall k v,
+  untriggered_key k = true -> in_table k v = true ->
+  (accepts k v = true <-> documented k v = true) /\ (documented k v = true -> decode k v = Ok (meaning k v)).
+Proof. exact config_exact_untriggered. Qed.
+Theorem C19_config_acceptance_fps : forall s,
+  (Z.of_nat (length s) <=? 4300) = true ->
+  (accepts KFps (JStr s) = true <-> documented KFps (JStr s) = true) /\
+  (documented KFps (JStr s) = true -> decode KFps (JStr s) = Ok (meaning KFps (JStr s))).
+Proof. exact config_exact_fps. Qed.
+Theorem C19_config_acceptance_partial : forall k v,
+  in_table k v = true -> trigger k v = false -> (accepts k v = true <-> documented k v = true).
 Proof. exact config_accepts. Qed.
-(* no trigger is involved for imsc_writer.time_format: the decoder is exact *)
-Theorem C19_config_accepts_time_format : forall v, v <> JNull -> (accepts KTimeFormat v = true <-> documented KTimeFormat v = true).
-Proof. exact acc_time_format. Qed.
-(* colours and font stacks, partial.  Colours: every documented colour (named, #rrggbb, #rrggbbaa, rgb(), rgba() with
-   components 0..255) shorter than CPython's int() digit limit is accepted, and non-strings are rejected.  Missing: the
-   converse for strings (an accepted string outside the trigger is documented) — the regular-expression scanners of
-   parse_color against the grammar.  Font stacks: non-strings rejected, a single family name of two or more letters
-   is documented and accepted; multi-family stacks and quoted names are covered by the probe and correspondence
-   runs only. *)
-Theorem C19_config_accepts_color_complete : forall k s,
-  (k = KColor \/ k = KBgColor) -> (Z.of_nat (length s) <=? 4290) = true -> documented k (JStr s) = true -> accepts k (JStr s) = true.
-Proof. exact color_complete_documented. Qed.
-Theorem C19_config_accepts_color_font_partial :
-  (forall k v, (k = KColor \/ k = KBgColor \/ k = KFontStack) -> v <> JNull -> (forall s, v <> JStr s) ->
-               accepts k v = false /\ documented k v = false) /\
-  (forall k s, (k = KColor \/ k = KBgColor) -> one_of s ttml_named_colors = true -> accepts k (JStr s) = true) /\
-  (forall k h, (k = KColor \/ k = KBgColor) -> forallb hexdigit h = true -> (length h = 6 \/ length h = 8)%nat ->
-               accepts k (JStr (35 :: h)) = true /\ documented k (JStr (35 :: h)) = true) /\
-  (forall s, forallb letter s = true -> (2 <= length s)%nat ->
-             accepts KFontStack (JStr s) = true /\ documented KFontStack (JStr s) = true).
-Proof. exact (conj acc_not_string (conj color_named_accepted (conj color_hex_accepted font_single_name))). Qed.
+Theorem C19_config_meaning_partial : forall k v,
+  in_table k v = true -> trigger k v = false -> documented k v = true -> decode k v = Ok (meaning k v).
+Proof. exact config_meaning. Qed.
+Theorem C19_config_rejects_partial : forall k v,
+  in_table k v = true -> trigger k v = false -> documented k v = false -> exists e, decode k v = Raise e.
+Proof. exact config_rejects. Qed.
+(* colours: for every string free of upper-case letters, ASCII white space and non-ASCII characters and within the digit
+   limit, parse_color accepts exactly the TTML2 colours and returns their RGBA value *)
+Theorem C19_config_colors : forall s,
+  forallb cplain s = true -> (Z.of_nat (length s) <=? 4300) = true ->
+  parse_color s = match (if color_ok s then mean_color_text s else None) with Some c => Ok c | None => Raise EValue end /\
+  (color_ok s = true -> (if color_ok s then mean_color_text s else None) <> None).
+Proof. exact parse_color_spec. Qed.
+(* font stacks: every documented stack is accepted (a family name of one character included, since the repair) *)
+Theorem C19_font_stack_documented_accepted : forall s, fonts_ok s = true -> accepts KFontStack (JStr s) = true.
+Proof. exact font_documented_accepts. Qed.
+Theorem C19_font_single_name : forall s,
+  forallb letter s = true -> s <> [] -> accepts KFontStack (JStr s) = true /\ documented KFontStack (JStr s) = true.
+Proof. exact font_single_name. Qed.
+(* whole sections: each module's parse gives the configuration README prescribes for the section object, or fails when
+   README prescribes none — for every section object whose documented keys carry values of the table outside the triggers *)
+Theorem C19_section_acceptance : forall d,
+  (keys_clean "imsc_writer" d = true -> match spec_imsc (JObj d) with Some c => parse_imsc d = Ok c | None => exists e, parse_imsc d = Raise e end) /\
+  (keys_clean "scc_reader" d = true -> match spec_scc (JObj d) with Some c => parse_scc d = Ok c | None => exists e, parse_scc d = Raise e end) /\
+  (keys_clean "stl_reader" d = true -> match spec_stl (JObj d) with Some c => parse_stl d = Ok c | None => exists e, parse_stl d = Raise e end) /\
+  (keys_clean "srt_writer" d = true -> match spec_srt (JObj d) with Some c => parse_srt d = Ok c | None => exists e, parse_srt d = Raise e end) /\
+  (keys_clean "vtt_writer" d = true -> match spec_vtt (JObj d) with Some c => parse_vtt d = Ok c | None => exists e, parse_vtt d = Raise e end) /\
+  (keys_clean "lcd" d = true -> match spec_lcd (JObj d) with Some c => parse_lcd d = Ok c | None => exists e, parse_lcd d = Raise e end).
+Proof. exact (fun d => conj (module_imsc d) (conj (module_scc d) (conj (module_stl d) (conj (module_srt d) (conj (module_vtt d) (module_lcd d)))))). Qed.
+Theorem C19_section_acceptance_general : forall d,
+  keys_clean "general" d = true ->
+  match spec_general (JObj d) with
+  | Some (lv, pb, lang) => exists ll dl, parse_general d = Ok (ll, pb, dl) /\ level_dec ll = Ok lv /\ lang_dec dl = Ok lang
+  | None => (exists e, parse_general d = Raise e) \/
+            exists ll pb dl, parse_general d = Ok (ll, pb, dl) /\ ((exists e, level_dec ll = Raise e) \/ (exists e, lang_dec dl = Raise e))
+  end.
+Proof. exact module_general. Qed.
 
-(* ---- tie 1 (recompiled whenever the regenerated tables change): M's decoders equal the code on the fixed probe
-        set, S is departed from on it only inside recorded findings, defaults and tables are the code's *)
-Theorem C19_decoders_on_probe_set : forallb probe_ok gen_probes = true /\ forallb (fun p => negb (probe_class p =? 9)) gen_probes = true.
+(* ================================================================== what the plan does not depend on.
+   (M is a function, so "deterministic" is not a statement about it; these are.)  The plan — errors included — is the same
+   for two configurations that give the same value to every documented key of every consulted section. *)
+Theorem C19_plan_depends_on_consulted_keys_only : forall o c c', cfg_agree o c c' -> convert_with o c = convert_with o c'.
+Proof. exact plan_depends_on_consulted_keys_only. Qed.
+Theorem C19_convert_is_convert_with : forall o i f, convert o i f = do data <- load_config i f; convert_with o data.
+Proof. exact convert_load. Qed.
+(* the order of the sections, the order of the keys inside a section *)
+Theorem C19_section_order_irrelevant : forall o l l',
+  Permutation l l' -> NoDup (List.map fst l) -> convert_with o (Some (JObj l)) = convert_with o (Some (JObj l')).
+Proof. exact section_order_irrelevant. Qed.
+Theorem C19_key_order_irrelevant : forall o l1 l2 name d d',
+  Permutation d d' -> NoDup (List.map fst d) -> ~ In name (List.map fst l2) ->
+  convert_with o (Some (JObj (l1 ++ (name, JObj d) :: l2))) = convert_with o (Some (JObj (l1 ++ (name, JObj d') :: l2))).
+Proof. exact key_order_irrelevant. Qed.
+(* sections the command line does not consult — unknown ones included — whatever they hold *)
+Theorem C19_unrelated_sections_irrelevant : forall o l l',
+  (forall name, consulted o name = true -> obj_get (T name) l = obj_get (T name) l') ->
+  convert_with o (Some (JObj l)) = convert_with o (Some (JObj l')).
+Proof. exact unrelated_sections_irrelevant. Qed.
+(* keys README does not document for a section: ignored, as README (silently) has it *)
+Theorem C19_unknown_key_ignored : forall o l1 l2 name d1 d2 k v,
+  known_key name k = false ->
+  convert_with o (Some (JObj (l1 ++ (T name, JObj (d1 ++ (k, v) :: d2)) :: l2))) =
+  convert_with o (Some (JObj (l1 ++ (T name, JObj (d1 ++ d2)) :: l2))).
+Proof. exact unknown_key_ignored. Qed.
+
+(* ================================================================== tie 1 (recompiled whenever the regenerated tables
+   change): every table M mentions is the code's, M's decoders equal the code on the fixed probe set, and S is departed
+   from on it only inside recorded findings *)
+Theorem C19_tables_are_the_codes :
+  (list_eqb text_eqb (List.map snd gen_file_types) (List.map fst file_types) = true /\
+   forallb (fun nv => text_eqb (py_upper (snd nv)) (fst nv)) gen_file_types = true) /\
+  (list_eqb tt_eqb gen_filter_registry [(T "lcd", T "lcd")] = true /\
+   list_eqb text_eqb (List.map fst gen_filter_registry) (List.map fst filter_registry) = true) /\
+  all2 (fun g m => text_eqb (fst (fst g)) (T (fst m)) &&
+                   all2 (fun gf mf => text_eqb (fst (fst gf)) (T (fst mf)) && text_eqb (snd gf) (T (snd mf))) (snd g) (snd m) &&
+                   forallb (fun gf => snd (fst gf)) (snd g)) gen_config_fields config_table = true /\
+  (list_eqb text_eqb gen_phases (List.map (fun p => T (phase_name p)) phase_order) = true /\
+   all2 dispatch_eqb gen_reader_table reader_table = true /\ all2 dispatch_eqb gen_writer_table writer_table = true) /\
+  (list_eqb text_eqb gen_subcommands subcommands = true /\ all2 option_row_ok gen_options option_strings = true /\
+   all2 (fun (a : text * dest) (b : string * dest) => text_eqb (fst a) (T (fst b)) && (dest_code (snd a) =? dest_code (snd b)))
+        (List.filter (fun od => negb (dest_code (snd od) =? 0)) option_strings) spec_flags = true).
+Proof. exact (conj file_types_agree (conj filter_registry_agrees (conj config_fields_agree (conj convert_shape_agrees argparse_agrees)))). Qed.
+Theorem C19_decoders_on_probe_set :
+  forallb probe_ok gen_probes = true /\ forallb (fun p => negb (probe_class p =? 9) && negb (probe_class p =? 8)) gen_probes = true.
 Proof. exact (conj probes_agree probes_spec_ok). Qed.
 Theorem C19_defaults_are_the_codes :
   default_scc = gen_default_scc /\ default_stl = gen_default_stl /\ default_imsc = gen_default_imsc /\
@@ -109,35 +273,82 @@ Theorem C19_defaults_are_the_codes :
   default_general = gen_default_general.
 Proof. exact defaults_agree. Qed.
 
-(* ---- non-vacuity *)
+(* ================================================================== non-vacuity: the hypotheses are satisfiable *)
 Definition ex_opts : options := Build_options (T "dir.d/My File.SCC") (T "out/o.dat") None (Some (T "Ttml")) [T "lcd"; T "nope"; T "lcd"].
 Definition ex_inline : json := JObj [(T "lcd", JObj [(T "safe_area", JInt 99)])].
 Definition ex_file : json :=
   JObj [(T "general", JObj [(T "document_lang", JStr (T "es-419"))]); (T "lcd", JObj [(T "safe_area", JInt 5)]);
         (T "imsc_writer", JObj [(T "fps", JStr (T "30000/1001")); (T "time_format", JStr (T "frames"))])].
-Example C19_example_plan :
-  plan (Subcommand (T "convert") ex_opts) (IGiven ex_inline) (FGiven ex_file) =
-  OPlan (Build_plan_t (RdScc None) (Some (T "es-419"))
-           [FLcd (Build_lcd_cfg 5 false None None); FLcd (Build_lcd_cfg 5 false None None)]
-           (WrTtml (Some (Build_imsc_cfg (Some TfFrames) (Some (30000, 1001))))) (Some 20) (Some true)).
+Definition ex_plan : plan_t :=
+  Build_plan_t (RdScc None) (Some (T "es-419"))
+    [FLcd (Build_lcd_cfg 5 false None None); FLcd (Build_lcd_cfg 5 false None None)]
+    (WrTtml (Some (Build_imsc_cfg (Some TfFrames) (Some (30000, 1001))))) (Some 20) (Some true).
+Example C19_example_plan : plan (Subcommand (T "convert") ex_opts) (IGiven ex_inline) (FGiven ex_file) = OPlan ex_plan.
 Proof. vm_compute. reflexivity. Qed.
+(* the same command line as tokens, in scrambled order, with a repeated option: hypotheses of C19_plan_is_pipeline hold *)
+Definition ex_tokens : list text :=
+  [T "--filter"; T "lcd"; T "-o"; T "ignored.srt"; T "--otype=Ttml"; T "--config_file"; T "cfg.json"; T "--filter=nope";
+   T "--output"; T "out/o.dat"; T "--config={...}"; T "--filter"; T "lcd"; T "-i=dir.d/My File.SCC"].
+Definition ex_items : list (dest * text) :=
+  [(DFilter, T "lcd"); (DOutput, T "ignored.srt"); (DOtype, T "Ttml"); (DConfigFile, T "cfg.json"); (DFilter, T "nope");
+   (DOutput, T "out/o.dat"); (DConfig, T "{...}"); (DFilter, T "lcd"); (DInput, T "dir.d/My File.SCC")].
+Definition ex_json_of (t : text) : option json := Some ex_inline.
+Definition ex_files (p : text) : file_src := FGiven ex_file.
+Example C19_example_hypotheses :
+  spec_items ex_tokens = Some ex_items /\ spec_options ex_items = Some (ex_opts, Some (T "{...}"), Some (T "cfg.json")) /\
+  sources_ok (inline_of ex_json_of (Some (T "{...}"))) (file_of ex_files (Some (T "cfg.json"))) = true /\
+  clean ex_opts (effective (inline_of ex_json_of (Some (T "{...}"))) (file_of ex_files (Some (T "cfg.json")))) = true /\
+  spec_plan ex_opts (effective (inline_of ex_json_of (Some (T "{...}"))) (file_of ex_files (Some (T "cfg.json")))) = Some ex_plan /\
+  plan_tokens ex_json_of ex_files (T "convert" :: ex_tokens) = OPlan ex_plan.
+Proof. vm_compute. repeat split; reflexivity. Qed.
+Example C19_example_run :
+  run_tokens Z unit (st_read (-1)) st_lang (st_filter (-1)) (st_write (-1)) ex_json_of ex_files (T "convert" :: ex_tokens) =
+    (plan_events ex_plan (T "dir.d/My File.SCC") (T "out/o.dat"), FDone (T "out/o.dat") tt) /\
+  (* the second filter call raises: the log stops there, nothing is written *)
+  run_tokens Z unit (st_read 2) st_lang (st_filter 2) (st_write 2) ex_json_of ex_files (T "convert" :: ex_tokens) =
+    ([EvProgress true; EvLevel 20; EvRead (RdScc None) (T "dir.d/My File.SCC"); EvLang (T "es-419");
+      EvFilter (FLcd (Build_lcd_cfg 5 false None None)); EvFilter (FLcd (Build_lcd_cfg 5 false None None))], FError (EStage 1)).
+Proof. vm_compute. split; reflexivity. Qed.
 Example C19_example_errors :
   plan (Subcommand (T "convert") ex_opts) (IGiven ex_inline) FAbsent = OError EValue /\        (* safe_area 99 *)
   plan (Subcommand (T "convert") (Build_options (T "a.srt") (T "b.scc") None None [])) IAbsent FAbsent = OError EExitUnsupported /\
   plan (Subcommand (T "convert") (Build_options (T "a.txt") (T "b.srt") None None [])) IAbsent FAbsent = OError EValue /\
-  plan (Subcommand (T "frobnicate") ex_opts) IAbsent FAbsent = OError EExitUsage.
+  plan (Subcommand (T "frobnicate") ex_opts) IAbsent FAbsent = OError EExitUsage /\
+  parse_main [T "convert"; T "-i"; T "a.srt"] = CUsage /\ parse_main [T "convert"; T "-o"; T "b"; T "-i"] = CUsage /\
+  parse_main [T "convert"; T "-h"] = CHelp /\ parse_main [] = CHelp.
 Proof. vm_compute. repeat split; reflexivity. Qed.
 Example C19_example_table :
   trigger KSafeArea (JInt 31) = false /\ accepts KSafeArea (JInt 31) = false /\ accepts KSafeArea (JInt 30) = true /\
-  trigger KFps (JStr (T "30000/1001")) = false /\ accepts KFps (JStr (T "30000/1001")) = true /\
-  trigger KStartTc (JStr (T "10:00:00:00")) = false /\ trigger KTextFormatting (JBool false) = false.
+  accepts KSafeArea (JStr (T "10")) = false /\ accepts KTextFormatting (JStr (T "no")) = false /\
+  trigger KFps (JStr (T "30000/1001")) = false /\ decode KFps (JStr (T "50/2")) = Ok (CFrac 25 1) /\ accepts KFps (JStr (T "-25/1")) = false /\
+  trigger KStartTc (JStr (T "10:00:00:00")) = false /\ accepts KStartTc (JStr (T "10:00:00:00xyz")) = false /\
+  trigger KColor (JStr (T "rgba(255,255,0,128)")) = false /\ decode KColor (JStr (T "rgba(255,255,0,128)")) = Ok (CColor 255 255 0 128) /\
+  accepts KColor (JStr (T "#FF0000zz")) = false /\ accepts KColor (JStr (T "rgb(300,0,0)")) = false /\
+  accepts KFontStack (JStr (T "a")) = true /\ accepts KMaxRowCount (JBool true) = false.
 Proof. vm_compute. repeat split; reflexivity. Qed.
+Example C19_example_order :
+  let d := [(T "fps", JStr (T "30000/1001")); (T "time_format", JStr (T "frames"))] in
+  let d' := [(T "time_format", JStr (T "frames")); (T "fps", JStr (T "30000/1001"))] in
+  Permutation d d' /\ NoDup (List.map fst d) /\ known_key "imsc_writer" (T "zzz") = false /\
+  consulted ex_opts "imsc_writer" = true /\ consulted ex_opts "vtt_writer" = false /\ consulted ex_opts "no_such_section" = false /\
+  convert_with ex_opts (Some (JObj [(T "imsc_writer", JObj d)])) = convert_with ex_opts (Some (JObj [(T "vtt_writer", JStr (T "never read")); (T "imsc_writer", JObj ((T "zzz", JNull) :: d'))])).
+Proof.
+  cbv zeta. split; [apply perm_swap|]. split; [repeat constructor; cbn; intuition discriminate|]. vm_compute. repeat split; reflexivity.
+Qed.
 
-Print Assumptions C19_types_iff.  Print Assumptions C19_types_unique.  Print Assumptions C19_types.
-Print Assumptions C19_unsupported_types.  Print Assumptions C19_precedence.  Print Assumptions C19_inline_alone.
-Print Assumptions C19_malformed_inline.  Print Assumptions C19_filters_order.  Print Assumptions C19_filters_configured.
-Print Assumptions C19_lang_override.  Print Assumptions C19_errors_no_output.  Print Assumptions C19_help_no_output.
-Print Assumptions C19_unknown_subcommand.  Print Assumptions C19_output_only_if_valid.
-Print Assumptions C19_config_accepts_partial.  Print Assumptions C19_config_accepts_time_format.
-Print Assumptions C19_config_accepts_color_complete.  Print Assumptions C19_config_accepts_color_font_partial.  Print Assumptions C19_decoders_on_probe_set.
-Print Assumptions C19_defaults_are_the_codes.
+Print Assumptions C19_plan_is_pipeline.  Print Assumptions C19_args_grammar.  Print Assumptions C19_grammar_recognised.
+Print Assumptions C19_plan_is_spec_plan.  Print Assumptions C19_unreadable_sources.  Print Assumptions C19_run_is_pipeline.
+Print Assumptions C19_no_output_on_error.  Print Assumptions C19_output_only_when_done.
+Print Assumptions C19_errors_no_output.  Print Assumptions C19_help_no_output.  Print Assumptions C19_unknown_subcommand.
+Print Assumptions C19_unknown_subcommand_tokens.  Print Assumptions C19_output_only_if_valid.
+Print Assumptions C19_types_iff.  Print Assumptions C19_types_unique.  Print Assumptions C19_types.  Print Assumptions C19_unsupported_types.
+Print Assumptions C19_precedence.  Print Assumptions C19_inline_alone.  Print Assumptions C19_malformed_inline.
+Print Assumptions C19_filters_order.  Print Assumptions C19_filters_configured.  Print Assumptions C19_lang_override.
+Print Assumptions C19_config_acceptance_exact.  Print Assumptions C19_config_acceptance_fps.  Print Assumptions C19_config_acceptance_partial.
+Print Assumptions C19_config_meaning_partial.  Print Assumptions C19_config_rejects_partial.  Print Assumptions C19_config_colors.
+Print Assumptions C19_font_stack_documented_accepted.  Print Assumptions C19_font_single_name.
+Print Assumptions C19_section_acceptance.  Print Assumptions C19_section_acceptance_general.
+Print Assumptions C19_plan_depends_on_consulted_keys_only.  Print Assumptions C19_convert_is_convert_with.
+Print Assumptions C19_section_order_irrelevant.  Print Assumptions C19_key_order_irrelevant.
+Print Assumptions C19_unrelated_sections_irrelevant.  Print Assumptions C19_unknown_key_ignored.
+Print Assumptions C19_tables_are_the_codes.  Print Assumptions C19_decoders_on_probe_set.  Print Assumptions C19_defaults_are_the_codes.
